@@ -336,6 +336,12 @@ def analyse(unit, res):
             else:
                 kind = c["kind"]
                 counted = True
+            if c.get("skipped"):
+                # `closure k optional` whose closure is gone on this tree: the clause cannot be stated, it is UNDECIDED (never discharged)
+                obligations.append({"unit": unit, "id": c["id"], "tags": c["tags"], "kind": kind, "fn": fname, "file": it["file"], "place": c["place"], "counted": counted,
+                                    "status": "undecided", "diags": [], "text": c["text"][:300], "backend": "verus-z3", "solver_us": None, "rlimit": None,
+                                    "undecided_reason": c["skipped"]})
+                continue
             fails = named_fail.get(c["id"], [])
             obligations.append({"unit": unit, "id": c["id"], "tags": c["tags"], "kind": kind, "fn": fname, "file": it["file"], "place": c["place"], "unmodelled_closure": unmodelled,
                                 "counted": counted, "status": "failed" if fails else "discharged", "diags": fails, "text": c["text"][:300],
